@@ -13,9 +13,12 @@
       sid     : none | <hex>        (transport.session_id before the exchange: none = first exchange)
       pkt     : <ptype>:<hex body>:<x>
     Reply: `<effect> … | <ok|ssh|value|type> | <expected types, comma separated or -> | <session_id afterwards>`
+  Request:  conn <hostkey none|name:blob> <server name:blob> <start_client ok 0|1> <pkey><password><gss_auth><gss_kex>
+            → Transport.connect after the key exchange: raised | auth:<gssmic|gsskeyex|publickey|password> | none
   Request:  kh <sid hex|none> (<K>:<H hex>)*   → `_set_K_H` sequence: `<K|none> <H|none> <sid|none>`
 -/
 import PV.Model.Kex
+import PV.Model.Connect
 import PV.Base.DriverIO
 namespace PV.KexIO
 open PV PV.Wire PV.Kex
@@ -94,8 +97,32 @@ def parseKH (s : String) : Option (Nat × Bytes) :=
     | _, _ => none
   | _ => none
 
+def parseHostKey (s : String) : Option PV.Connect.HostKey :=
+  match s.splitOn ":" with
+  | [n, b] => match ofHex? n, ofHex? b with
+    | some n, some b => some { name := n, blob := b }
+    | _, _ => none
+  | _ => none
+
+def showConn : PV.Connect.Out → String
+  | .raised => "raised"
+  | .noAuth => "none"
+  | .auth .gssMic => "auth:gssmic"
+  | .auth .gssKeyex => "auth:gsskeyex"
+  | .auth .publickey => "auth:publickey"
+  | .auth .password => "auth:password"
+
 def step (line : String) : String :=
   match words line with
+  | ["conn", hk, srv, ok, flags] =>
+    let hk? : Option (Option PV.Connect.HostKey) := if hk == "none" then some none else (parseHostKey hk).map some
+    match hk?, parseHostKey srv, flags.toList with
+    | some hk, some srv, [a, b, c, d] =>
+      if ¬ [a, b, c, d].all (fun x => x == '0' || x == '1') || (ok != "0" && ok != "1") then "bad-op"
+      else showConn (PV.Connect.connect
+        { hostkey := hk, pkey := a == '1', password := b == '1', gssAuth := c == '1', gssKex := d == '1' }
+        (ok == "1") srv)
+    | _, _, _ => "bad-op"
   | "kex" :: en :: role :: mode :: lv :: rv :: lk :: rk :: hk :: algo :: x :: vf :: md :: sid :: pkts =>
     match parseEngine en, ofHex? lv, ofHex? rv, ofHex? lk, ofHex? rk, ofHex? hk, ofHex? algo with
     | some (eng, old), some lv, some rv, some lk, some rk, some hk, some algo =>
